@@ -76,6 +76,10 @@ func init() {
 		"populations of hosts and clients of kinds geth / parity / unknown, fresh or stale, connected / closed / reconnected, already peered or not; requested counts -2..supply+3, MaxRequestHosts 0/1/2/5; vipnode_peer and the legacy vipnode_client; per-host whitelist policy ack / error / silent / slow; acknowledgement arrival orders chosen by the scheduler; returned hosts must be eligible and acknowledged before the reply, counts bounded, error only without hosts, reply within the timeout",
 		profile{prop: "C08", oracles: []string{"C08"}, connect: 5, reconnect: 2, update: 6, peer: 12, advance: 5, closeConn: 2, legacy: 2,
 			minOps: 10, maxOps: 45, minBal: []int64{-999}, hostPolicies: true})
+	regWorld("c09_registry_faults", 300, 20000,
+		"the registry histories with one injected storage error per run in a registration (SetNode, the nonce save): a registration that fails leaves the host where it was - not registered on the connection of the failed attempt",
+		profile{prop: "C09", oracles: []string{"C09"}, connect: 4, reconnect: 8, update: 1, peer: 4, advance: 1, closeConn: 4,
+			minOps: 8, maxOps: 30, minBal: []int64{-999}, storeFaults: true})
 	regWorld("c09_registry_seq", 500, 30000,
 		"1-3 hosts; connect, reconnect on a new connection, close of the old or the new connection in every order, peer requests in between; the count of connected hosts equals the hosts whose latest registered connection is open, closed connections are never instructed, a reconnected host is instructed on its new connection",
 		profile{prop: "C09", oracles: []string{"C09"}, connect: 3, reconnect: 6, update: 2, peer: 8, advance: 1, closeConn: 6,
@@ -259,6 +263,9 @@ func runWorldSeq(s *kernel.Sim, p profile) {
 		if p.prop == "C07" {
 			ops = []string{"AddAccountBalance", "AddAccountBalance", "GetAccountBalance", "CheckAndSaveNonce", "AddNodeBalance"}
 		}
+		if p.prop == "C09" {
+			ops = []string{"SetNode", "SetNode", "CheckAndSaveNonce"}
+		}
 		w.YS.FailPermille = map[string]int{}
 		for k := 1 + s.Choose("nfaultops", 3); k > 0; k-- {
 			w.YS.FailPermille[ops[s.Choose("faultop", len(ops))]] = []int{50, 150, 400}[s.Choose("faultrate", 3)]
@@ -266,6 +273,11 @@ func runWorldSeq(s *kernel.Sim, p profile) {
 		w.YS.FailBudget = 1 // one storage error per run: without transactions across store calls nothing can be promised for two
 	}
 	d := NewDirector(w, p.oracles...)
+	if p.storeFaults && p.prop == "C09" {
+		// only registrations meet storage errors here
+		d.faultConnectOnly = true
+		w.YS.SetDisarmed(true)
+	}
 	if p.storeFaults && p.prop == "C07" {
 		// only withdrawals meet storage errors here, everything else keeps the exact model
 		d.faultWithdrawOnly = true
@@ -283,7 +295,7 @@ func runWorldSeq(s *kernel.Sim, p profile) {
 	s.Go("director", func() {
 		// everybody connects once first (most properties need a populated pool)
 		for _, a := range w.Actors {
-			if d.choose("initconnect", 6) != 0 && !s.Violated() {
+			if d.choose("initconnect", 6) != 0 && !s.Violated() && !d.desync {
 				payout := ""
 				if a.Wallet != nil && d.choose("payout", 2) == 1 {
 					payout = a.Wallet.Addr
